@@ -119,7 +119,7 @@ def run_kani(crate, tdir, filters, flags=(), harness_timeout=300, jobs=None, exa
 
 def classify(r, vr):
     checks = vr.get('checks', [])
-    unwind_fail, real_fail, must_not, vac = [], [], [], []
+    unwind_fail, real_fail, must_not, vac, unsupported = [], [], [], [], []
     undet = 0
     panics = 0
     for c in checks:
@@ -143,6 +143,8 @@ def classify(r, vr):
         if st == 'Failure':
             if cat == 'unwind':
                 unwind_fail.append(where)
+            elif cat == 'unsupported_construct':
+                unsupported.append(desc.split('.')[0] + ' @' + where)
             else:
                 real_fail.append((cat, desc, c.get('function', ''), where))
                 if cat == 'assertion':
@@ -154,6 +156,9 @@ def classify(r, vr):
     status = vr.get('status')
     if unwind_fail:
         r.verdict, r.reason = 'inconclusive', 'unwinding assertion failed at ' + ', '.join(unwind_fail[:3])
+        return
+    if unsupported and not real_fail and not must_not:
+        r.verdict, r.reason = 'inconclusive', 'reachable construct Kani cannot translate: ' + '; '.join(unsupported[:2])
         return
     if r.should_panic:
         # Kani: success iff >=1 panic-type failure and no other failure. We additionally require that
